@@ -199,7 +199,17 @@ impl FixtureDatabase {
             if !already_open {
                 match std::fs::read_to_string(path) {
                     Ok(content) => {
-                        self.analyze_file_fresh(path.clone(), &content);
+                        // A document that was opened and closed again before the scan got here has
+                        // left index entries behind (closing keeps them): the disk text replaces
+                        // them, it is not indexed next to them.
+                        let canonical = self.get_canonical_path(path.clone());
+                        if self.file_definitions.contains_key(&canonical)
+                            || self.usages.contains_key(&canonical)
+                        {
+                            self.analyze_file(path.clone(), &content);
+                        } else {
+                            self.analyze_file_fresh(path.clone(), &content);
+                        }
                     }
                     Err(err) => {
                         if err.kind() == std::io::ErrorKind::PermissionDenied {
